@@ -8,6 +8,7 @@ import (
 	"unsafe"
 
 	"github.com/goccy/go-json/internal/runtime"
+	"github.com/goccy/go-json/internal/verifhook"
 )
 
 var decMu sync.RWMutex
@@ -16,11 +17,14 @@ func CompileToGetDecoder(typ *runtime.Type) (Decoder, error) {
 	initDecoder()
 	typeptr := uintptr(unsafe.Pointer(typ))
 	if typeptr > typeAddr.MaxTypeAddr {
+		verifhook.DecBind(-1, typeptr)
 		return compileToGetDecoderSlowPath(typeptr, typ)
 	}
 
 	index := (typeptr - typeAddr.BaseTypeAddr) >> typeAddr.AddrShift
 	decMu.RLock()
+	verifhook.DecBind(int(index), typeptr)
+	verifhook.Point(3, unsafe.Pointer(&cachedDecoder[index]), false)
 	if dec := cachedDecoder[index]; dec != nil {
 		decMu.RUnlock()
 		return dec, nil
@@ -32,6 +36,7 @@ func CompileToGetDecoder(typ *runtime.Type) (Decoder, error) {
 		return nil, err
 	}
 	decMu.Lock()
+	verifhook.Point(4, unsafe.Pointer(&cachedDecoder[index]), true)
 	cachedDecoder[index] = dec
 	decMu.Unlock()
 	return dec, nil
